@@ -339,6 +339,42 @@ pub fn cmd_c08(tier: &str, out: &str) {
             }
         }
     }
+    // very long noise (2^16 - 1, 2^16, beyond): the reported noise length must stay exact and the frame must follow
+    {
+        let lens: &[usize] = if tier == "thorough" { &[65535, 65536, 65537, 70001, 131071, 131072, 262145] } else { &[65535, 65536, 70001] };
+        let hists: Vec<Vec<u32>> = vec![vec![], frame(&[0x55]).iter().map(|b| *b as u32).collect()];
+        for &l in lens {
+            for kind in 0..2 {
+                let g: Vec<u8> = (0..l).map(|i| if kind == 0 { 0x55 } else if i % 5 == 4 { 0x00 } else { 0x1b }).collect();
+                for hops in &hists {
+                    let hbytes = hops.len() as i64;
+                    let m: Vec<u8> = vec![0x55];
+                    n += 1;
+                    let mut ops = hops.clone();
+                    ops.extend(g.iter().map(|b| *b as u32));
+                    ops.extend(frame(&m).iter().map(|b| *b as u32));
+                    for fe in [1u16, 3, 7] {
+                        if fe == 3 && !hops.is_empty() {
+                            continue;
+                        }
+                        let all = match fe {
+                            1 => run_push::<Vec<u8>>(&ops, true),
+                            3 => run_decode(&bytes_of(&ops)),
+                            _ => run_reader_vec(&bytes_of(&ops), Src::Iter, 0),
+                        };
+                        let ev = if fe == 3 {
+                            all
+                        } else {
+                            let idx = all.iter().position(|e| e[0] > hbytes).unwrap_or(all.len());
+                            shift(&all, hbytes, idx)
+                        };
+                        let key = format!("long{}|{}|{}|{}|{:?}", fe, l, kind, hbytes, ev);
+                        ks.put(&key, || format!("{{\"kind\":1,\"fe\":{},\"h\":{},\"g\":{},\"m\":{},\"e\":{}}}", fe, jarr(hops), jarr(&g), jarr(&m), jarr2(&ev)));
+                    }
+                }
+            }
+        }
+    }
     // histories that end in an out-of-memory error of a fixed buffer (ArrayBuf<8>), at every site that can run out of
     // memory: an ordinary data byte, the flush of withheld zeros, the fifth zero of a run, a literal escape, the flush at
     // the end sequence. The decoder must be idle afterwards (the monitor establishes that with the spec's decoder, cap 8).
